@@ -5,7 +5,7 @@ Open Scope N_scope.
 
 Section TimedLemmas.
 Context {A : Type}.
-Implicit Types (s : tbst A) (e : bev A) (te : tev A) (c : tcfg).
+Implicit Types (s : tbst A) (e : bev A) (te : cev A) (c : tcfg).
 
 (* ---- forgetting the clock gives the untimed machine ---- *)
 Definition untime_ev s te : option (bev A) :=
@@ -258,7 +258,7 @@ End TimedLemmas.
 Definition code_cfg (age : N) : tcfg := mk_tcfg (mk_bcfg 10 100 true) age false.
 Definition every_item_cfg (age : N) : tcfg := mk_tcfg (mk_bcfg 10 100 true) age true.
 
-Definition trickle3 : list (tev N) :=
+Definition trickle3 : list (cev N) :=
   [Ev (Enq 1); Ev (Take true); Tick 4; Ev (Enq 2); Ev (Take true); Tick 4; Ev (Enq 3); Ev (Take true); Tick 2;
    Ev Fire; Ev (OnTimer true); Tick 2; Ev (Enq 4); Ev (Take true)].
 
@@ -271,7 +271,7 @@ Proof. vm_compute. repeat split; reflexivity. Qed.
 
 (* the variant that re-arms on every item: the same submissions, a timely runtime, and the first operation is still
    waiting at time 14 > 0 + 10 + 1 + 1; the timer cannot fire before 18 *)
-Definition trickle4_no_fire : list (tev N) :=
+Definition trickle4_no_fire : list (cev N) :=
   [Ev (Enq 1); Ev (Take true); Tick 4; Ev (Enq 2); Ev (Take true); Tick 4; Ev (Enq 3); Ev (Take true); Tick 2;
    Ev Fire; Ev (OnTimer true); Tick 4; Ev Fire; Ev (OnTimer true)].
 
@@ -283,7 +283,7 @@ Lemma trickle_every_item :
 Proof. vm_compute. repeat split; reflexivity. Qed.
 
 Lemma every_item_breaks_bound :
-  exists (tes : list (tev N)) t,
+  exists (tes : list (cev N)) t,
     timely_from 1 1 (every_item_cfg 10) tinit tes = true /\
     let s := trun (every_item_cfg 10) tes in
     In t (ptimes (ti s)) /\ rearm (ti s) = None /\ ~ now (ti s) <= t + 10 + 1 + 1.
